@@ -313,6 +313,9 @@ func (a *Agent) gatherServerReflexiveCandidates(ctx context.Context, wg *sync.Wa
 
 //nolint:gocognit,gocyclo,cyclop,maintidx
 func (a *Agent) gatherCandidatesLocal(ctx context.Context, networkTypes []NetworkType) {
+	// An empty list means all network types (see AgentConfig.NetworkTypes).
+	networkTypes = configuredNetworkTypes(networkTypes)
+
 	networks := map[string]struct{}{}
 	for _, networkType := range networkTypes {
 		if networkType.IsTCP() {
@@ -611,6 +614,9 @@ func (a *Agent) gatherCandidatesLocalUDPMux(ctx context.Context) error { //nolin
 }
 
 func (a *Agent) gatherCandidatesSrflxMapped(ctx context.Context, networkTypes []NetworkType) { //nolint:gocognit,cyclop
+	// An empty list means all network types (see AgentConfig.NetworkTypes).
+	networkTypes = configuredNetworkTypes(networkTypes)
+
 	var wg sync.WaitGroup
 	defer wg.Wait()
 
@@ -727,6 +733,9 @@ func (a *Agent) gatherCandidatesSrflxMapped(ctx context.Context, networkTypes []
 
 //nolint:gocognit,cyclop
 func (a *Agent) gatherCandidatesSrflxUDPMux(ctx context.Context, urls []*stun.URI, networkTypes []NetworkType) {
+	// An empty list means all network types (see AgentConfig.NetworkTypes).
+	networkTypes = configuredNetworkTypes(networkTypes)
+
 	var wg sync.WaitGroup
 	defer wg.Wait()
 
@@ -837,6 +846,9 @@ func getXORMappedAddr(
 
 //nolint:cyclop,gocognit
 func (a *Agent) gatherCandidatesSrflx(ctx context.Context, urls []*stun.URI, networkTypes []NetworkType) {
+	// An empty list means all network types (see AgentConfig.NetworkTypes).
+	networkTypes = configuredNetworkTypes(networkTypes)
+
 	var wg sync.WaitGroup
 	defer wg.Wait()
 
